@@ -403,11 +403,22 @@ func genAmbProg(t *rapid.T, bl []nameArity) ambProg {
 		return strings.ReplaceAll(pick(t, "wrap", ambWraps), "%s", s)
 	}
 	n := rapid.IntRange(1, 3).Draw(t, "stages")
-	parts := make([]string, n)
-	for i := range parts {
-		parts[i] = stage()
+	p.src = stage()
+	for i := 1; i < n; i++ {
+		// later stages are reached also when an earlier one fails or is empty
+		switch rapid.IntRange(0, 5).Draw(t, "join") {
+		case 0, 1:
+			p.src = p.src + " | " + stage()
+		case 2:
+			p.src = "(try (" + p.src + ") catch .), (" + stage() + ")"
+		case 3:
+			p.src = "[(" + p.src + ")?] | ., (.[]? | " + stage() + ")"
+		case 4:
+			p.src = "((" + p.src + ")? // .) | " + stage()
+		default:
+			p.src = "(" + stage() + ") as $s | (" + p.src + ")?, $s"
+		}
 	}
-	p.src = strings.Join(parts, " | ")
 	if rapid.IntRange(0, 11).Draw(t, "import") == 0 {
 		p.src = pick(t, "imp", ambImports) + pick(t, "impuse", ambImportUses) + " | " + p.src
 		p.caps = true
